@@ -8,8 +8,11 @@
 """
 import re
 
+import os
+
 import drive
 import lifecycle
+import record
 import tlcrun
 from findings import Report, canon_hash
 
@@ -37,6 +40,58 @@ def report_failures(rep, judge, prefixes):
             rep.fail(clause, sig, wit)
     for k, n in judge.nonconf.items():
         rep.nonconforming[k] = rep.nonconforming.get(k, 0) + n
+
+
+REPO_TESTS = ["test_TrackedArray.py", "test_BC_utility_methods.py", "test_CellVariable_copy.py",
+              "test_CellVariable_methods.py", "test_benchmark_1d.py", "test_cylindrical1D_diffusion_steady.py"]
+MAX_EVENTS = 1500
+
+
+def traces(rep, tier, seed):
+    """code -> spec: executions recorded by the env-guarded hooks, validated by FVLifecycleTrace"""
+    here = os.path.dirname(os.path.dirname(os.path.abspath(__file__)))
+    scen = os.path.join(here, "scenarios.py")
+    jobs = [("shared-bc", [scen, "shared"], None)]
+    nprog, length = (6, 40) if tier == "quick" else (60, 60)
+    jobs.append(("random-programs", [scen, "random", str(seed), str(nprog), str(length)], None))
+    jobs.append(("random-programs-sharing", [scen, "random", str(seed + 1), str(max(2, nprog // 3)), str(length), "share"], None))
+    for t in (REPO_TESTS if tier == "thorough" else REPO_TESTS[:4]):
+        jobs.append(("repo:" + t, ["-m", "pytest", "-q", "-p", "no:cacheprovider", "-x", os.path.join(drive.REPO, "tests", t)],
+                     drive.REPO))
+    out = {"traces": 0, "events": 0, "states": 0, "per_trace": {}, "mismatches": {}, "dropped": {}}
+    for name, argv, cwd in jobs:
+        sink = tlcrun.fresh(name.replace(":", "_").replace("/", "_") + ".ndjson")
+        p = record.run_traced(argv, sink, cwd=cwd)
+        if p.returncode != 0 and not name.startswith("repo:"):
+            raise tlcrun.MachineryError(f"traced program {name} failed:\n{p.stderr[-800:]}")
+        if not os.path.exists(sink):
+            raise tlcrun.MachineryError(f"no trace recorded for {name} (hooks missing or guard not honoured)")
+        events, dropped, nraw = record.normalise(sink)
+        os.remove(sink)
+        truncated = len(events) > MAX_EVENTS
+        events = events[:MAX_EVENTS]
+        if not events:
+            raise tlcrun.MachineryError(f"empty trace for {name}")
+        verdict, res = record.validate(events, name)
+        out["traces"] += 1
+        out["events"] += len(events)
+        out["states"] += res["distinct"]
+        out["per_trace"][name] = {"events": len(events), "raw_events": nraw, "truncated": truncated,
+                                  "mismatches": len(verdict["mism"]), "violations": len(verdict["viol"]),
+                                  "program_exit": p.returncode}
+        for k, n in dropped.items():
+            out["dropped"][k] = out["dropped"].get(k, 0) + n
+        for mm in verdict["mism"]:
+            out["mismatches"][mm["what"]] = out["mismatches"].get(mm["what"], 0) + 1
+            rep.nonconform("trace:" + mm["what"])
+        for vv in verdict["viol"]:
+            if vv["manual"]:
+                continue           # flags were reset by hand before the solve: outside C09's alphabet
+            ev = events[vv["line"] - 1]
+            rep.fail("C09_FreshSolve" if vv["clause"] == "C09_FreshAtUse" else vv["clause"],
+                     {"shared_bc": vv["shared"], "spec_expects_stale": True, "source": "recorded-trace"},
+                     {"trace": name, "line": vv["line"], "event": ev, "prefix": events[max(0, vv["line"] - 12):vv["line"]]})
+    return out
 
 
 def run(tier, seed):
@@ -72,9 +127,11 @@ def run(tier, seed):
     if judge.solves == 0:
         raise tlcrun.MachineryError("vacuity: no SolvePDE step was replayed")
     report_failures(rep, judge, ("C09_",))
+    tr = traces(rep, tier, seed)
     cov = {
-        "states": res["distinct"] + sim["states"], "transitions": res["states"] + sim["states"],
-        "traces_validated_against_impl": len(behs), "evaluations": judge.steps,
+        "states": res["distinct"] + sim["states"] + tr["states"], "transitions": res["states"] + sim["states"] + tr["states"],
+        "traces_validated_against_impl": len(behs) + tr["traces"], "evaluations": judge.steps + tr["events"],
+        "recorded_traces": tr,
         "distinct_nontrivial": len({canon_hash([[r["name"], r["args"]] for r in b]) for b in behs if len(b) > 3}),
         "rule": "exhaustive: FVLifecycle with 3 variables, 3 BC objects, all histories to the depth of the tier over the "
                 "C09 alphabet (sharing allowed); simulated: behaviours over the full alphabet replayed step by step "
